@@ -29,6 +29,26 @@ pub enum Kind {
     Auth,
     /// QoS 0 publish: a request whose handler produces no response (it must not hold up or swallow the responses around it)
     Pub0,
+    /// client roles: PUBREL carrying the id of the nearest earlier QoS 1 publish whose handler is still running (the only
+    /// PUBREL a client hands to its protocol handler); that publish is kept deferred until the PUBREL has arrived
+    PubRelOf,
+}
+
+/// `PubRelOf` resolved: the kinds actually sent (a `PubRelOf` without a free earlier QoS 1 publish becomes a QoS 1 publish)
+/// and the index of the publish each `PubRelOf` refers to
+fn resolve(kinds: &[Kind]) -> (Vec<Kind>, Vec<Option<usize>>) {
+    let mut eff = kinds.to_vec();
+    let mut target: Vec<Option<usize>> = vec![None; kinds.len()];
+    for i in 0..kinds.len() {
+        if kinds[i] == Kind::PubRelOf {
+            let t = (0..i).rev().find(|j| eff[*j] == Kind::Pub1 && !target.contains(&Some(*j)));
+            match t {
+                Some(t) => target[i] = Some(t),
+                None => eff[i] = Kind::Pub1,
+            }
+        }
+    }
+    (eff, target)
 }
 
 impl Kind {
@@ -52,6 +72,9 @@ pub struct Case {
     pub open_after: Vec<u8>,
     /// stall the peer's receive window during groups [a, b)
     pub stall: Option<(u8, u8)>,
+    /// publishes reach their handlers through the topic router (server: `Router`, client: `resource()`)
+    #[serde(default)]
+    pub router: bool,
 }
 
 fn fail(c: &Case, rule: &str, detail: String) -> Failure {
@@ -78,13 +101,31 @@ pub async fn run_case(c: Case) -> Result<CaseInfo, Failure> {
         cfg.v3.write_hw = 8;
         cfg.v5.write_hw = 8;
     }
+    cfg.v3.router = c.router;
+    cfg.v5.router = c.router;
     let eut = Eut::start(c.role, &cfg).await;
     eut.handshake(&cfg).await;
+    let n_relof = resolve(&c.kinds).1.iter().filter(|t| t.is_some()).count();
+    let res = run_case_on(c, &eut).await;
+    if res.is_err() && n_relof > 0 {
+        // a PUBREL for the id of a running QoS 1 publish comes from a peer that is itself out of line; the case is judged
+        // only if the library took every such PUBREL for a request (its protocol handler was called)
+        let accepted = eut.app().events().iter().filter(|e| matches!(e, Ev::CtlEnter { kind: CtlKind::PubRel, .. })).count();
+        if accepted < n_relof && std::env::var_os("VERIF_C04_NOMASK").is_none() {
+            return Ok(CaseInfo::trivial().label("client-pubrel-not-accepted"));
+        }
+    }
+    res
+}
+
+async fn run_case_on(c: Case, eut: &Eut) -> Result<CaseInfo, Failure> {
     let app = eut.app().clone();
     let n = c.kinds.len();
+    let (kinds, target) = resolve(&c.kinds);
+    let deferred = target.iter().flatten().fold(c.deferred, |m, t| m | 1 << t);
 
     // pre-phase: one completed QoS 2 first leg per PUBREL
-    let n_rel = c.kinds.iter().filter(|k| **k == Kind::PubRel).count();
+    let n_rel = kinds.iter().filter(|k| **k == Kind::PubRel).count();
     for k in 0..n_rel {
         let pid = 100 + k as u16;
         eut.peer_send(&P5::Publish(Box::new(s5::Publish5 { qos: 2, pid: Some(pid), topic: "t/a".into(), ..Default::default() })), &[]);
@@ -105,7 +146,7 @@ pub async fn run_case(c: Case) -> Result<CaseInfo, Failure> {
     let mut has_resp: Vec<bool> = Vec::new();
     let mut frames: Vec<Vec<u8>> = Vec::new();
     let (mut np, mut nc, mut nrel) = (0u32, 0u32, 0u16);
-    for (i, k) in c.kinds.iter().enumerate() {
+    for (i, k) in kinds.iter().enumerate() {
         let pid = i as u16 + 1;
         let (pkt, exp, g) = match k {
             Kind::Pub1 => (P5::Publish(Box::new(s5::Publish5 { qos: 1, pid: Some(pid), topic: "t/a".into(), ..Default::default() })), (4, pid), (G_PUB, pub_base + np)),
@@ -127,6 +168,10 @@ pub async fn run_case(c: Case) -> Result<CaseInfo, Failure> {
             Kind::Ping => (P5::PingReq, (13, 0), (G_CTL, nc)),
             Kind::Auth => (P5::Auth(s5::Auth5 { reason: 0x19, auth_method: Some("m".into()), ..Default::default() }), (15, 0), (G_CTL, nc)),
             Kind::Pub0 => (P5::Publish(Box::new(s5::Publish5 { qos: 0, pid: None, topic: "t/a".into(), ..Default::default() })), (0, 0), (G_PUB, pub_base + np)),
+            Kind::PubRelOf => {
+                let id = target[i].map_or(0, |t| t as u16 + 1);
+                (P5::PubRel(s5::Ack5 { pid: id, ..Default::default() }), (7, id), (G_CTL, nc))
+            }
         };
         if k.is_publish() {
             np += 1;
@@ -139,7 +184,7 @@ pub async fn run_case(c: Case) -> Result<CaseInfo, Failure> {
         has_resp.push(*k != Kind::Pub0);
         gate.push(g);
         frames.push(eut.encode(&pkt, &[]));
-        if c.deferred >> i & 1 == 1 {
+        if deferred >> i & 1 == 1 {
             app.hold(g.0, g.1);
         }
     }
@@ -150,6 +195,17 @@ pub async fn run_case(c: Case) -> Result<CaseInfo, Failure> {
             Ev::CtlExit { seq } => g.0 == G_CTL && *seq == g.1,
             _ => false,
         })
+    };
+    // has the PUBREL that refers to publish `ri` (if any) reached the protocol handler?  (the k-th such PUBREL is the k-th
+    // PUBREL the protocol handler sees)
+    let rel_entered = |app: &App, ri: usize| -> bool {
+        match (0..n).find(|j| target[*j] == Some(ri)) {
+            None => true,
+            Some(j) => {
+                let rank = (0..j).filter(|i| target[*i].is_some()).count();
+                app.log.borrow().iter().filter(|e| matches!(e, Ev::CtlEnter { kind: CtlKind::PubRel, .. })).count() > rank
+            }
+        }
     };
     let mut inversions = false;
     let mut stalled = false;
@@ -224,7 +280,11 @@ pub async fn run_case(c: Case) -> Result<CaseInfo, Failure> {
         // gate openings scheduled after this group
         for (oi, &ri) in c.open_order.iter().enumerate() {
             let ri = usize::from(ri);
-            if ri >= n || c.deferred >> ri & 1 == 0 {
+            if ri >= n || deferred >> ri & 1 == 0 {
+                continue;
+            }
+            // a publish a PUBREL refers to stays in its handler until that PUBREL has reached the protocol handler
+            if !rel_entered(&app, ri) {
                 continue;
             }
             if usize::from(*c.open_after.get(oi).unwrap_or(&0)) == gi && ri < end {
@@ -241,11 +301,14 @@ pub async fn run_case(c: Case) -> Result<CaseInfo, Failure> {
     if stalled {
         eut.peer().window(1 << 30);
         stalled = false;
+        if target.iter().any(Option::is_some) {
+            eut.settle().await;
+        }
     }
     // remaining gates in the generated order, then anything left
     for &ri in &c.open_order {
         let ri = usize::from(ri);
-        if ri < n && c.deferred >> ri & 1 == 1 && !done_of(&app, gate[ri]) {
+        if ri < n && deferred >> ri & 1 == 1 && !done_of(&app, gate[ri]) && rel_entered(&app, ri) {
             if (0..ri).any(|j| !done_of(&app, gate[j])) {
                 inversions = true;
             }
@@ -257,8 +320,9 @@ pub async fn run_case(c: Case) -> Result<CaseInfo, Failure> {
     app.open_all();
     eut.settle().await;
     observe(&eut, n, false, true)?;
-    // control handlers are entered one at a time
-    {
+    // control handlers are entered one at a time (servers: the library documents that control requests are processed one
+    // at a time and buffers the rest; clients make no such promise and C04 does not ask for it)
+    if c.role.is_server() {
         let log = app.log.borrow();
         let mut open_ctl = 0i32;
         for e in log.iter() {
@@ -287,6 +351,9 @@ pub async fn run_case(c: Case) -> Result<CaseInfo, Failure> {
     if c.stall.is_some() {
         info.labels.push("stall-episode");
     }
+    if target.iter().any(Option::is_some) {
+        info.labels.push("client-pubrel-for-running-publish");
+    }
     if had_bp {
         info.labels.push("write-backpressure-reported");
     }
@@ -302,8 +369,8 @@ fn kinds_for(role: Role) -> Vec<Kind> {
     match role {
         Role::V3Server => vec![Kind::Pub1, Kind::Pub2, Kind::PubRel, Kind::Sub, Kind::Unsub, Kind::Ping, Kind::Pub0],
         Role::V5Server => vec![Kind::Pub1, Kind::Pub2, Kind::Pub1Neg, Kind::Pub1ErrAck, Kind::PubRel, Kind::Sub, Kind::Unsub, Kind::Ping, Kind::Auth, Kind::Pub0],
-        Role::V5Client => vec![Kind::Pub1, Kind::Pub1Neg, Kind::Pub0],
-        _ => vec![Kind::Pub1, Kind::Pub0],
+        Role::V5Client => vec![Kind::Pub1, Kind::Pub1Neg, Kind::Pub0, Kind::PubRelOf],
+        _ => vec![Kind::Pub1, Kind::Pub0, Kind::PubRelOf],
     }
 }
 
@@ -323,8 +390,9 @@ fn case_strategy(role: Role) -> BoxedStrategy<Case> {
         }),
         prop::collection::vec(0u8..5, 8),
         prop_oneof![3 => Just(None), 1 => (0u8..3, 1u8..5).prop_map(|(a, d)| Some((a, a + d)))],
+        any::<bool>(),
     )
-        .prop_map(move |(kinds, deferred, groups, settle_between, open_order, open_after, stall)| Case {
+        .prop_map(move |(kinds, deferred, groups, settle_between, open_order, open_after, stall, router)| Case {
             role,
             kinds,
             deferred,
@@ -333,6 +401,7 @@ fn case_strategy(role: Role) -> BoxedStrategy<Case> {
             open_order,
             open_after,
             stall,
+            router,
         })
         .boxed()
 }
@@ -370,13 +439,20 @@ fn exhaustive(ctx: &Ctx) -> Stats {
         (Role::V5Server, vec![Kind::Pub1, Kind::Pub0, Kind::Ping, Kind::Pub0, Kind::Pub1][..n].to_vec()),
         (Role::V3Server, vec![Kind::Pub1, Kind::Pub0, Kind::Pub1, Kind::Pub0, Kind::Sub][..n].to_vec()),
         (Role::V3Client, vec![Kind::Pub1, Kind::Pub0, Kind::Pub1, Kind::Pub0, Kind::Pub1][..n].to_vec()),
+        (Role::V3Client, vec![Kind::Pub1, Kind::PubRelOf, Kind::Pub1, Kind::PubRelOf, Kind::Pub1][..n].to_vec()),
+        (Role::V5Client, vec![Kind::Pub1, Kind::Pub1, Kind::PubRelOf, Kind::PubRelOf, Kind::Pub1][..n].to_vec()),
     ];
     let mut work: Vec<Case> = Vec::new();
-    for (role, kinds) in &patterns {
+    for (pi, (role, kinds)) in patterns.iter().enumerate() {
+        // the last two patterns (client PUBREL) also through the client's resource() routes, pattern 0 through the server's router
+        let routed = pi == 0 || pi + 2 >= patterns.len();
         for mask in 0u32..(1 << n) {
             let deferred: Vec<u8> = (0..n as u8).filter(|i| mask >> i & 1 == 1).collect();
             for perm in permutations(&deferred) {
-                for one_write in [true, false] {
+                for (one_write, router) in [(true, false), (false, false), (true, true)] {
+                    if router && !routed {
+                        continue;
+                    }
                     work.push(Case {
                         role: *role,
                         kinds: kinds.clone(),
@@ -386,6 +462,7 @@ fn exhaustive(ctx: &Ctx) -> Stats {
                         open_order: perm.clone(),
                         open_after: vec![n as u8 + 1; perm.len()],
                         stall: None,
+                        router,
                     });
                 }
             }
@@ -411,15 +488,16 @@ pub fn run(ctx: &Ctx, started: Instant) -> i32 {
     stats.merge(rnd);
     let report = Report {
         level: "exploration",
-        rule: "exhaustive: for 10 request-kind patterns of length 4 (quick) / 5 (thorough) every immediate/deferred mask x every completion permutation x {one write, one write per request}; \
-               random: 2..7 requests from {PUBLISH QoS1, PUBLISH QoS2, PUBREL of an earlier completed first leg, SUBSCRIBE, UNSUBSCRIBE, PINGREQ, v5 AUTH, PUBLISH QoS 0 (no response)} with generated write groupings, \
+        rule: "exhaustive: for 14 request-kind patterns of length 4 (quick) / 5 (thorough) every immediate/deferred mask x every completion permutation x {one write, one write per request} (three patterns also with the publishes going through the topic router / the client's resource() routes); \
+               random: 2..7 requests from {PUBLISH QoS1, PUBLISH QoS2, PUBREL of an earlier completed first leg, SUBSCRIBE, UNSUBSCRIBE, PINGREQ, v5 AUTH, PUBLISH QoS 0 (no response); client roles: PUBLISH QoS 0/1 and PUBREL carrying the id of a QoS 1 publish whose handler is still running} with generated write groupings, \
                gate openings interleaved with arrivals, optional stalled-peer episode with an 8-byte write watermark. Oracle at every settle point: responses on the wire (type, packet id) are a \
                prefix of the arrival order, exactly as long as the longest prefix of completed requests; at the end the full order; protocol handlers never overlap. \
                Non-trivial = at least one request completed while an earlier one was still pending; distinct = the whole case"
             .into(),
         exhaustive: true,
         assumptions: vec![
-            "healthy connections only: distinct packet ids, no handler errors, conforming peer (PUBREL after PUBREC)".into(),
+            "healthy connections only: distinct packet ids, no handler errors, conforming peer (PUBREL after PUBREC) on server roles".into(),
+            "client roles never write PUBREC (known finding of C03), so the only PUBREL a client hands to its protocol handler carries the id of a publish whose handler is still running; such a case is judged only if the protocol handler was called for every such PUBREL (then PUBACK and PUBCOMP are both due, in arrival order), otherwise it counts as trivial".into(),
             "exhaustive for the listed kind patterns only".into(),
         ],
         extra: BTreeMap::new(),
